@@ -16,7 +16,8 @@ LEVEL_TEXT = ("Theorems (Coq, no axioms, all documents): default_accepts_ext —
               "single-quoted strings and names, trailing commas, any literal case, raw control bytes, leading zeros, dangling exponents, trailing bytes) is "
               "accepted in default mode with the value of the erased document for the value-neutral forms; strict_rejects_* — for every position of a valid "
               "document (given by its valid left context, any nesting) and every suffix, each extension kind put there makes strict-mode parsing end with an "
-              "error.  The metamorphic oracle checks every generated injection, one-shot and chunked, under every flag combination, on the real library.")
+              "error; strict_allow_trailing / trailing_accepted_len — with the allow-trailing flag strict mode accepts every valid document followed by "
+              "trailing bytes and reports the end of the document.  The metamorphic oracle checks every generated injection, one-shot and chunked, under every flag combination, also after set_flags/parse/reset histories on the same parser, on the real library.")
 LEVEL_NOTE = ("Partial: the syntactic bridge from 'a document with exactly one extension node' to 'valid left context ++ extension ++ suffix' is not a theorem; "
               "trailing bytes that a number token could absorb (e.g. [1]2) are outside strict_rejects_trailing_bytes; tie to the C code by sampled differential execution.")
 
@@ -159,6 +160,14 @@ def gen(rng, tier):
                                         TRAILING: "-default+trailing", STRICT | TRAILING | UTF8: "-strict+trailing+utf8"}[fl], "ext": kind,
                         "text": t2, "flags": fl, "neutral": neutral, "orig": want, "origlen": len(t), "endpos": endpos}
                 out.append((line(32, fl, ["Z" + hx(t2)]), meta))
+                # the mode is a property of the parser object, not of the call: flags set with
+                # json_tokener_set_flags() stay in force through json_tokener_reset() and earlier
+                # documents (successful or failed) on the same parser
+                if rng.random() < 0.25:
+                    hist = rng.choice([["F%d" % fl, "R"], ["F%d" % fl, "Z" + hx(t), "R"], ["F%d" % fl, "Z" + hx(b"[1,"), "R"],
+                                       ["F%d" % fl, "Z" + hx(b"]"), "R"], ["F%d" % fl, "R", "R"], ["F%d" % fl, "Z" + hx(t)]])
+                    m3 = dict(meta); m3["kind"] = meta["kind"] + "-after-history"; m3["last"] = True
+                    out.append((line(32, rng.choice([0, fl]), hist + ["Z" + hx(t2)]), m3))
                 # the same verdict when the text arrives in pieces (strict mode is a property of the
                 # document, not of how it is fed): cut inside / next to the injected form
                 if fl in (0, STRICT) and len(t2) >= 3 and kind not in ("trailing", "comment_end") and rng.random() < 0.5:
@@ -179,6 +188,8 @@ def oracle(line_, meta, impl):
         return ("leak", impl[-30:])
     steps = parse_obs(impl)
     st = steps[0]
+    if meta.get("last"):
+        st = steps[-1]
     if meta.get("chunked"):
         # the verdict is the first status that is not "continue"
         st = next((x for x in steps if len(x) == 3 and x[0] != "continue"), steps[-1])
@@ -219,7 +230,7 @@ def nontrivial(line_, meta, impl):
     if not (meta["flags"] & STRICT) and impl.startswith("success"):
         return (meta["text"], 0)
     if meta["flags"] != 0:
-        return (meta["text"], meta["flags"])
+        return (meta["text"], meta["flags"], bool(meta.get("last")))
     return None
 
 
